@@ -40,6 +40,17 @@ class QuantTup(namedtuple("QuantTup", ["cls", "value_prop", "units_prop"])):
     """
 
 
+class _Chunk(str):
+    """A piece of text for the TextWrapper, which decides with strip()
+    whether a piece is only white space (and may be dropped at the ends
+    of lines): only the characters that the TextWrapper itself splits
+    on are white space here, not the no-break space and the like.
+    """
+
+    def strip(self, chars=None):
+        return str.strip(self, _ValueTextWrapper._ws if chars is None else chars)
+
+
 class _ValueTextWrapper(textwrap.TextWrapper):
     """A TextWrapper for the text of PVL Values: line breaks are only
     placed at white space that is not part of a quoted string or a
@@ -101,7 +112,7 @@ class _ValueTextWrapper(textwrap.TextWrapper):
                 chunks[-1] += piece
             else:
                 chunks.append(piece)
-        return chunks
+        return [_Chunk(c) for c in chunks]
 
 
 class PVLEncoder(object):
